@@ -117,14 +117,29 @@ def build_ill(cls, rng):
     k = rng.randint(2, 6)
     twin2 = ((-1, k), (-2, k))
     if cls == "self-ref":
-        return pg.All(puan.variable("A"), "x", variable="A") if rng.random() < 0.5 else pg.Any(pg.All("A", "y", variable="B"), "x", variable="A")
+        r = rng.random()
+        if r < 0.3:
+            return pg.All(puan.variable("A"), "x", variable="A")
+        if r < 0.55:
+            return pg.Any(pg.All("A", "y", variable="B"), "x", variable="A")
+        # the self reference sits below the root, next to unrelated (well-defined) sub-propositions with leaves of their own
+        extra = [pg.Any("x", "y"), pg.All("u1", "u2", "u3"), pg.AtMost(1, ["v1", "v2"]), pg.Any("w")]
+        sibs = rng.sample(extra, rng.randint(1, 3))
+        bad = rng.choice([lambda: pg.All("B", "z", variable="B"), lambda: pg.Any(pg.All("B", "q", variable="C"), "z", variable="B")])()
+        return pg.All(*sibs, bad, variable="A")
     if cls == "cycle":
         n = rng.randint(2, 4)
         names = ["N%d" % i for i in range(n)]
         inner = pg.Any(names[0], "x", variable=names[-1])      # last node refers back to the first through a leaf
         for i in range(n - 2, -1, -1):
             inner = rng.choice([pg.All, pg.Any])(inner, "y%d" % i, variable=names[i])
-        return inner if rng.random() < 0.5 else pg.All(inner, "z", variable="TOP")
+        r = rng.random()
+        if r < 0.4:
+            return inner
+        if r < 0.7:
+            return pg.All(inner, "z", variable="TOP")
+        # the cycle does not pass through the root and has unrelated siblings with leaves of their own
+        return pg.All(inner, pg.Any("u1", "u2", "u3"), pg.All("v1", "v2"), "z", variable="TOP")
     if cls == "dup-child":
         r = rng.random()
         extra = rng.sample(["y", "z", "w"], rng.randint(0, 2))          # the duplicate may be the only thing a node lists
